@@ -569,7 +569,8 @@ func init() {
 		Rule: "all nil/non-nil patterns of length 0..10 (quick) / 0..12 (thorough) x scan limit {default 50, 3, 60} x 4 negative/forward index option combinations; " +
 			"random patterns of length 13..80 and patterns with one nil run of 45..limit-1 under explicit limits {51,60,64,100,200}; random trees (depth <= 3) of pattern stacks nested as Stack elements, Stack aliases and Condition expressions. " +
 			"Oracle: content == former non-nil elements in order, Len == their count, Err()==nil, configuration unchanged, gap-free stacks untouched (recursive VerifDump diff); only patterns whose nil runs are shorter than the limit are judged. " +
-			"Every wrong result is classified by shape (truncation = expected[:m]++nil*, untouched, corrupt, spurious-err); for patterns of length <= 10 under default options the known wrong outcome is pinned per pattern in C19_pinned.txt. " +
+			"Every wrong result is classified by shape (truncation = expected[:m]++nil*, untouched, corrupt, spurious-err); for patterns of length <= 10 under default options the known wrong outcome is pinned per pattern in C19_pinned.txt, and a truncation-shaped result of any length must equal, element for element, what a step-by-step model of the pinned tree's arithmetic (c19Known) yields for that pattern - only then is it attributed to the known finding. " +
+			"A quarter of the unpinned cases carry a left-over error into the call; every third correct case is shrunk, refilled and defragmented again and compared with a fresh stack. " +
 			"non-trivial = pattern with at least one nil and one element (flat) / tree with at least one nested container; distinct = (pattern, limit, options) or tree description.",
 		Assumptions: []string{"element values are unique, so every surviving element identifies its origin"},
 		Floors: func(string) map[string]int64 {
